@@ -1,0 +1,16 @@
+//go:build verif
+
+package strvals
+
+// Contracts checked by /verif (govc). Comment-only file: it adds no code.
+
+// ---- C04 (3): list-index assignment of the --set grammar (parser.go)
+
+//@ func setIndex
+//@   props C04 C20
+//@   ensures [accepted-range] err == nil ==> 0 <= index && index <= MaxIndex
+//@   ensures [rejects-out-of-range] index < 0 || index > MaxIndex ==> err != nil
+//@   ensures [length] err == nil ==> len(l2) == ite(len(list) <= index, index + 1, len(list))
+//@   ensures [cell-set] err == nil ==> l2[index] == val
+//@   ensures [others-kept] err == nil ==> forall j int :: 0 <= j && j < len(list) && j != index ==> l2[j] == old(list[j])
+//@   ensures [padding-is-nil] err == nil ==> forall j int :: len(list) <= j && j < index ==> l2[j] == nil
